@@ -17,7 +17,6 @@ import (
 	"github.com/brimdata/super/compiler/data"
 	"github.com/brimdata/super/compiler/kernel"
 	"github.com/brimdata/super/compiler/optimizer/demand"
-	"github.com/brimdata/super/runtime/sam/expr"
 	"github.com/brimdata/super/zbuf"
 	"github.com/brimdata/super/zcode"
 	"github.com/brimdata/super/zio"
@@ -228,7 +227,10 @@ func run(seq ast.Seq, e *encoding) result { return runPrep(seq, e, nil) }
 func leadingFiltersOnly(seq dag.Seq) {
 	i := 1
 	for i < len(seq) {
-		if _, ok := seq[i].(*dag.Filter); !ok {
+		// (pass operators are removed before adjacent filters are merged)
+		_, isFilter := seq[i].(*dag.Filter)
+		_, isPass := seq[i].(*dag.Pass)
+		if !isFilter && !isPass {
 			break
 		}
 		i++
@@ -486,7 +488,7 @@ func runCase(c Case) *vt.Outcome {
 						}
 					}
 				}
-				if class := bufferFilterLossClass(lg.filter, lost); e.zng && len(extra) == 0 && class != "" {
+				if class := prog.BufferFilterLossClass(lg.filter, lost); e.zng && len(extra) == 0 && class != "" {
 					// Known false negatives of the ZNG buffer filter.  The rest of the
 					// program must still agree on the values that did get through:
 					// program(zson of those) == program(zng).
@@ -520,78 +522,6 @@ func runCase(c Case) *vt.Outcome {
 	}
 	o.NonTrivial = multiFrame && bufferFilter && selective
 	return o
-}
-
-type falseCmp struct {
-	path []string
-	in   bool // `false in path` rather than `path == false`
-}
-
-// falseComparisons returns the comparisons `P == false` and `false in P` of a filter expression.
-func falseComparisons(e dag.Expr, out *[]falseCmp) {
-	switch e := e.(type) {
-	case *dag.BinaryExpr:
-		if this, ok := e.LHS.(*dag.This); ok && e.Op == "==" {
-			if lit, ok := e.RHS.(*dag.Literal); ok && lit.Value == "false" {
-				*out = append(*out, falseCmp{path: this.Path})
-			}
-		}
-		if this, ok := e.RHS.(*dag.This); ok && e.Op == "in" {
-			if lit, ok := e.LHS.(*dag.Literal); ok && lit.Value == "false" {
-				*out = append(*out, falseCmp{path: this.Path, in: true})
-			}
-		}
-		falseComparisons(e.LHS, out)
-		falseComparisons(e.RHS, out)
-	case *dag.UnaryExpr:
-		falseComparisons(e.Operand, out)
-	}
-}
-
-func holdsNullBool(v zed.Value) bool {
-	found := false
-	v.Walk(func(typ zed.Type, body zcode.Bytes) error {
-		if body == nil && zed.TypeUnder(typ) == zed.TypeBool {
-			found = true
-		}
-		return nil
-	})
-	return found
-}
-
-// bufferFilterLossClass names the known class that explains why the ZNG
-// scanner lost the values `lost` under filter, or "".
-func bufferFilterLossClass(filter dag.Expr, lost []zed.Value) string {
-	if len(lost) == 0 || filter == nil {
-		return ""
-	}
-	b, _ := json.Marshal(filter)
-	if prog.AllOnlyNestedFieldName(lost, prog.SearchTerms(string(b))) {
-		return "search-fieldname-inside-container"
-	}
-	var cmps []falseCmp
-	falseComparisons(filter, &cmps)
-	if len(cmps) > 0 {
-		all := true
-		for _, v := range lost {
-			hit := false
-			for _, c := range cmps {
-				// (a null record makes its fields null as well)
-				f := expr.NewDottedExpr(zed.NewContext(), c.path).Eval(expr.NewContext(), v)
-				if !c.in && f.IsNull() && zed.TypeUnder(f.Type()) == zed.TypeBool {
-					hit = true
-				}
-				if c.in && !f.IsError() && holdsNullBool(f) {
-					hit = true
-				}
-			}
-			all = all && hit
-		}
-		if all {
-			return "null-equals-false-literal"
-		}
-	}
-	return ""
 }
 
 func describe(c Case, e *encoding) string {
